@@ -104,38 +104,7 @@ def extract_decisions(project: Project, em) -> list[Decision]:
             return stmts[0].value.value
         return None
 
-    for i, st in enumerate(body):
-        if isinstance(st, ast.Return):
-            if isinstance(st.value, ast.Constant) and st.value.value is False and i == len(body) - 1:
-                continue
-            raise AnalysisError(f"needs_quotes: unrecognised return `{ast.unparse(st)}`")
-        if not isinstance(st, ast.If) or st.orelse:
-            raise AnalysisError(f"needs_quotes: unrecognised statement `{ast.unparse(st)[:60]}`")
-        r = ret_const(st.body)
-        if r is None:
-            raise AnalysisError(f"needs_quotes: branch body is not `return True/False`: `{ast.unparse(st)[:60]}`")
-        t = st.test
-        txt = ast.unparse(t)
-        # not isinstance(value, str) -> False
-        if isinstance(t, ast.UnaryOp) and isinstance(t.op, ast.Not) and isinstance(t.operand, ast.Call) and ast.unparse(t.operand.func) == "isinstance" and r is False:
-            out.append(Decision("quote-nonstr-false", None, st))
-            continue
-        if isinstance(t, ast.UnaryOp) and isinstance(t.op, ast.Not) and isinstance(t.operand, ast.Name) and t.operand.id == pv and r is True:
-            out.append(Decision("quote-empty", None, st))
-            continue
-        # "\n" in value or "\t" in value ...
-        ops = t.values if isinstance(t, ast.BoolOp) and isinstance(t.op, ast.Or) else [t]
-        if all(isinstance(o, ast.Compare) and isinstance(o.ops[0], ast.In) and isinstance(o.left, ast.Constant) and isinstance(o.left.value, str) and isinstance(o.comparators[0], ast.Name) and o.comparators[0].id == pv for o in ops) and r is True:
-            out.append(Decision("quote-chars", [o.left.value for o in ops], st))
-            continue
-        # value in (...)
-        if isinstance(t, ast.Compare) and isinstance(t.ops[0], ast.In) and isinstance(t.left, ast.Name) and t.left.id == pv and r is True:
-            lits = project.fold(em, t.comparators[0])
-            if not isinstance(lits, (tuple, list, set, frozenset)) or not all(isinstance(x, str) for x in lits):
-                raise AnalysisError("needs_quotes: reserved-word collection does not fold to strings")
-            out.append(Decision("quote-literals", tuple(lits), st))
-            continue
-        # PAT.match(value) / PAT.search(value) / PAT.fullmatch(value)
+    def regex_decision(t: ast.AST, r: bool, st: ast.AST) -> Decision | None:
         neg = isinstance(t, ast.UnaryOp) and isinstance(t.op, ast.Not)
         c = t.operand if neg else t
         if isinstance(c, ast.Call) and isinstance(c.func, ast.Attribute) and c.func.attr in ("match", "search", "fullmatch") and isinstance(c.func.value, ast.Name) and len(c.args) == 1 and isinstance(c.args[0], ast.Name) and c.args[0].id == pv:
@@ -144,14 +113,73 @@ def extract_decisions(project: Project, em) -> list[Decision]:
                 raise AnalysisError(f"needs_quotes: {c.func.value.id} is not a regex constant")
             how = c.func.attr
             if not neg and r is False:
-                out.append(Decision("bare-if-match", (c.func.value.id, pat, how), st))
-                continue
+                return Decision("bare-if-match", (c.func.value.id, pat, how), st)
             if neg and r is True:
-                out.append(Decision("quote-unless-match", (c.func.value.id, pat, how), st))
-                continue
+                return Decision("quote-unless-match", (c.func.value.id, pat, how), st)
             if not neg and r is True:
-                out.append(Decision("quote-if-regex", (c.func.value.id, pat, how), st))
-                continue
+                return Decision("quote-if-regex", (c.func.value.id, pat, how), st)
+        return None
+
+    def one(t: ast.AST, r: bool, st: ast.AST) -> Decision | None:
+        # not isinstance(value, str) -> False
+        if isinstance(t, ast.UnaryOp) and isinstance(t.op, ast.Not) and isinstance(t.operand, ast.Call) and ast.unparse(t.operand.func) == "isinstance" and r is False:
+            return Decision("quote-nonstr-false", None, st)
+        if isinstance(t, ast.UnaryOp) and isinstance(t.op, ast.Not) and isinstance(t.operand, ast.Name) and t.operand.id == pv and r is True:
+            return Decision("quote-empty", None, st)
+        if isinstance(t, ast.Compare) and isinstance(t.ops[0], ast.In) and isinstance(t.left, ast.Constant) and isinstance(t.left.value, str) and isinstance(t.comparators[0], ast.Name) and t.comparators[0].id == pv and r is True:
+            return Decision("quote-chars", [t.left.value], st)
+        # any(ch in value for ch in CHARS)
+        if isinstance(t, ast.Call) and ast.unparse(t.func) == "any" and len(t.args) == 1 and isinstance(t.args[0], ast.GeneratorExp) and r is True:
+            ge = t.args[0]
+            if len(ge.generators) == 1 and not ge.generators[0].ifs and isinstance(ge.generators[0].target, ast.Name) and isinstance(ge.elt, ast.Compare) and isinstance(ge.elt.ops[0], ast.In) and isinstance(ge.elt.left, ast.Name) and ge.elt.left.id == ge.generators[0].target.id and isinstance(ge.elt.comparators[0], ast.Name) and ge.elt.comparators[0].id == pv:
+                chars = project.fold(em, ge.generators[0].iter)
+                if isinstance(chars, (tuple, list, set, frozenset, str)) and all(isinstance(x, str) for x in chars):
+                    return Decision("quote-chars", list(chars), st)
+        # value in (...) / value in CONST
+        if isinstance(t, ast.Compare) and isinstance(t.ops[0], ast.In) and isinstance(t.left, ast.Name) and t.left.id == pv and r is True:
+            lits = project.fold(em, t.comparators[0])
+            if not isinstance(lits, (tuple, list, set, frozenset)) or not all(isinstance(x, str) for x in lits):
+                raise AnalysisError("needs_quotes: reserved-word collection does not fold to strings")
+            return Decision("quote-literals", tuple(sorted(lits)), st)
+        return regex_decision(t, r, st)
+
+    for i, st in enumerate(body):
+        if isinstance(st, ast.Return):
+            v = st.value
+            if isinstance(v, ast.Constant) and isinstance(v.value, bool) and i == len(body) - 1:
+                continue  # default: False after a final quote-unless-match, True after bare-if-match decisions
+            # return not any(p.match(value) for p in PATTERNS): bare iff one of the patterns matches, in table order
+            if i == len(body) - 1 and isinstance(v, ast.UnaryOp) and isinstance(v.op, ast.Not) and isinstance(v.operand, ast.Call) and ast.unparse(v.operand.func) == "any" and isinstance(v.operand.args[0], ast.GeneratorExp):
+                ge = v.operand.args[0]
+                call = ge.elt
+                if len(ge.generators) == 1 and not ge.generators[0].ifs and isinstance(ge.generators[0].iter, ast.Name) and isinstance(call, ast.Call) and isinstance(call.func, ast.Attribute) and call.func.attr in ("match", "fullmatch") and isinstance(call.func.value, ast.Name) and call.func.value.id == getattr(ge.generators[0].target, "id", None):
+                    table = em.const_node(ge.generators[0].iter.id)
+                    if isinstance(table, (ast.Tuple, ast.List)) and all(isinstance(e, ast.Name) for e in table.elts):
+                        for e in table.elts:
+                            pat = project.const(em, e.id)
+                            if not isinstance(pat, RegexConst):
+                                raise AnalysisError(f"needs_quotes: {e.id} is not a regex constant")
+                            out.append(Decision("bare-if-match", (e.id, pat, call.func.attr), st))
+                        continue
+            raise AnalysisError(f"needs_quotes: unrecognised return `{ast.unparse(st)}`")
+        if not isinstance(st, ast.If) or st.orelse:
+            raise AnalysisError(f"needs_quotes: unrecognised statement `{ast.unparse(st)[:60]}`")
+        r = ret_const(st.body)
+        if r is None:
+            raise AnalysisError(f"needs_quotes: branch body is not `return True/False`: `{ast.unparse(st)[:60]}`")
+        t = st.test
+        txt = ast.unparse(t)
+        # a disjunction returning True is the sequence of its operands, in order
+        parts = t.values if isinstance(t, ast.BoolOp) and isinstance(t.op, ast.Or) and r is True else [t]
+        ds = [one(x, r, st) for x in parts]
+        if all(d is not None for d in ds):
+            # merge adjacent character tests into one decision (as the original `"\n" in v or "\t" in v` form)
+            for d in ds:
+                if d.kind == "quote-chars" and out and out[-1].kind == "quote-chars" and out[-1].node is st:
+                    out[-1].data = list(out[-1].data) + list(d.data)
+                else:
+                    out.append(d)
+            continue
         raise AnalysisError(f"needs_quotes: unrecognised decision `{txt[:80]}`")
     return out
 
@@ -162,13 +190,29 @@ def check_scanner_shape(project: Project) -> None:
     fail closed when _match_unicode_identifier no longer has that shape"""
     lx = project.mod("core.lexer")
     fn = lx.func("_match_unicode_identifier").node
-    src = ast.unparse(fn)
-    whiles = [n for n in walk_no_nested(fn) if isinstance(n, ast.While)]
+
+    # the scanner may be split into helpers of the lexer module (an extracted "scan identifier end", a shared qualifier
+    # scanner): view it with those helpers expanded at every call site. Character predicates and the sibling matchers
+    # (_is_*, _match_*) are not part of this scanner's own shape.
+    def expanded(f: ast.AST, depth: int = 0) -> list[ast.AST]:
+        out: list[ast.AST] = []
+        for n in walk_no_nested(f):
+            out.append(n)
+            if depth < 3 and isinstance(n, ast.Call) and isinstance(n.func, ast.Name) and lx.has_func(n.func.id) and not n.func.id.startswith(("_is_", "_match_")) and n.func.id != getattr(f, "name", ""):
+                # constant delimiters handed to the helper count as the tests the helper performs with them
+                for a in n.args:
+                    if isinstance(a, ast.Constant) and a.value in ("<", ">"):
+                        out.append(ast.Compare(left=ast.Name(id="_delim", ctx=ast.Load()), ops=[ast.Eq()], comparators=[ast.Constant(value=a.value)]))
+                out += expanded(lx.func(n.func.id).node, depth + 1)
+        return out
+
+    nodes = expanded(fn)
+    whiles = [n for n in nodes if isinstance(n, ast.While)]
     body_loops = [w for w in whiles if "_is_valid_identifier_char(content[" in ast.unparse(w.test)]
     strip_loops = [w for w in whiles if "== '-'" in ast.unparse(w.test)]
-    start_tests = [n for n in walk_no_nested(fn) if isinstance(n, ast.Call) and ast.unparse(n.func) == "_is_valid_identifier_start"]
-    lt = [n for n in walk_no_nested(fn) if isinstance(n, ast.Compare) and isinstance(n.comparators[0], ast.Constant) and n.comparators[0].value == "<"]
-    gt = [n for n in walk_no_nested(fn) if isinstance(n, ast.Compare) and isinstance(n.comparators[0], ast.Constant) and n.comparators[0].value == ">"]
+    start_tests = [n for n in nodes if isinstance(n, ast.Call) and ast.unparse(n.func) == "_is_valid_identifier_start"]
+    lt = [n for n in nodes if isinstance(n, ast.Compare) and isinstance(n.comparators[0], ast.Constant) and n.comparators[0].value == "<"]
+    gt = [n for n in nodes if isinstance(n, ast.Compare) and isinstance(n.comparators[0], ast.Constant) and n.comparators[0].value == ">"]
     if not (len(body_loops) == 2 and len(strip_loops) == 2 and len(start_tests) == 2 and len(lt) == 1 and len(gt) == 1):
         raise AnalysisError(
             "_match_unicode_identifier no longer has the shape the tokenizer model assumes "
